@@ -89,8 +89,9 @@ class C17(Plugin):
                 if b[0] != a[0]:
                     v.append(("text-kind-changed", ""))
                     continue
-                if [c for c in a[1] if not is_ws(c)] != [c for c in b[1] if not is_ws(c)] and \
-                        not (a[0] == 2 and any(not is_ws(c) for c in a[1])):
+                if [c for c in a[1] if not is_ws(c)] != [c for c in b[1] if not is_ws(c)]:
+                    # (also when the walker has put a non-ASCII space into a SpaceCharacters token:
+                    # on streams from parsed input every non-whitespace character must survive)
                     v.append(("non-whitespace-altered", repr((a[1], b[1]))))
                 if inside:
                     if a != b:
